@@ -897,11 +897,37 @@ func ruleDaemonLog(r *Run) {
 		och.Fail(r.pos(next.Pos()), "parseNext's error is not stored into i.err")
 	}
 	for _, ret := range returnsOf(next) {
-		for _, lv := range phiLeaves(ret.Results[0]) {
-			if c, idx, ok := extractOf(lv); !ok || c != pnCall || idx != 0 {
-				cgood = false
-				och.Fail(r.pos(ret.Pos()), "Next returns %s, not parseNext's ok", describe(lv, 0))
+		for _, lp := range phiLeavesWithPred(ret.Results[0], ret.Block()) {
+			lv := lp.V
+			if c, idx, ok := extractOf(lv); ok && c == pnCall && idx == 0 {
+				continue
 			}
+			// `false` without reading, once a failure is recorded (the error stays)
+			if isConstBool(lv, false) {
+				blk := ret.Block()
+				if lp.Pred != nil {
+					blk = lp.Pred
+				}
+				facts := factsAt(blk)
+				if lp.Pred != nil {
+					if ef, ok := edgeFact(lp.Pred, lp.At); ok {
+						facts = append(facts, normFact(ef))
+					}
+				}
+				failed := false
+				for _, f := range facts {
+					if x, trueWhenNonNil, ok := nilCheck(f.Cond); ok && f.Truth == trueWhenNonNil {
+						if fl, base, ok := loadOfField(x); ok && fl == "err" && (base == ssa.Value(next.Params[0]) || originValue(base) == ssa.Value(next.Params[0])) {
+							failed = true
+						}
+					}
+				}
+				if failed {
+					continue
+				}
+			}
+			cgood = false
+			och.Fail(r.pos(ret.Pos()), "Next returns %s, not parseNext's ok", describe(lv, 0))
 		}
 	}
 	for _, ret := range returnsOf(errM) {
